@@ -27,7 +27,7 @@ PLAN = {
     "thorough": {"shards": 16, "shard_timeout": 3600, "case_timeout": 300, "maxlen": 8, "alg": 400000, "max_case_timeouts": 10},
 }
 THRESHOLDS = {
-    "quick": {"tracker_histories": 4000, "registrations_checked": 20000, "algorithm_runs": 150, "alg:gp": 20, "alg:rs": 20, "alg:hc": 20, "alg:opo": 20, "histories_with_ties": 1000, "minimising": 1500, "shared_evaluator_cases": 100, "shared_evaluator:parallel": 30, "presented_with_fitness": 100, "shared_evaluator_runs": 30},
+    "quick": {"tracker_histories": 4000, "registrations_checked": 20000, "algorithm_runs": 150, "alg:gp": 20, "alg:rs": 20, "alg:hc": 20, "alg:opo": 20, "histories_with_ties": 1000, "minimising": 1500, "shared_evaluator_cases": 100, "shared_evaluator:parallel": 30, "presented_with_fitness": 100, "shared_evaluator_runs": 30, "searches_on_a_warm_tracker": 20, "second_search_calls": 20},
     "thorough": {"tracker_histories": 12000, "registrations_checked": 80000, "algorithm_runs": 3800},
 }
 
@@ -57,7 +57,7 @@ def gen_cases(tier, seed):
             seq = [2] + [0] * (n - 2) + [5]
         else:
             seq = [rng.randint(0, 6) for _ in range(n)]
-        yield {"kind": "alg", "alg": ["gp", "rs", "hc", "opo"][i % 4], "repr": rng.choice(["tree", "ge", "sge"]), "minimize": rng.random() < 0.5, "seq": seq, "budget": rng.randint(2, 40), "pop": rng.choice([2, 3, 5, 8]), "multi": rng.random() < 0.2, "seed": rng.randrange(10**6)}
+        yield {"kind": "alg", "alg": ["gp", "rs", "hc", "opo"][i % 4], "repr": rng.choice(["tree", "ge", "sge"]), "minimize": rng.random() < 0.5, "seq": seq, "budget": rng.randint(2, 40), "pop": rng.choice([2, 3, 5, 8]), "multi": rng.random() < 0.2, "warm": rng.choice([None, None, "pre-evaluated", "second-search"]), "seed": rng.randrange(10**6)}
 
 
 def good(v, minimize):
@@ -322,9 +322,19 @@ def run_alg(case, rec):
         "hc": lambda: HC(prob, b, rep, src, tracker=tr, number_of_mutations=case["pop"]),
         "opo": lambda: OnePlusOne(prob, b, rep, src, tracker=tr),
     }[case["alg"]]()
-    wit = {"alg": case["alg"], "repr": case["repr"], "minimize": minimize, "script": seq[:12], "budget": case["budget"], "multi": multi}
+    warm = case.get("warm")
+    wit = {"alg": case["alg"], "repr": case["repr"], "minimize": minimize, "script": seq[:12], "budget": case["budget"], "multi": multi, "tracker_history_before_search": warm}
     try:
+        if warm == "pre-evaluated":  # a tracker that already knows individuals (warm start, tracker shared with an earlier search)
+            from geneticengine.solutions.individual import Individual
+
+            k = 1 + case["seed"] % 3
+            tr.evaluate([Individual(rep.create_genotype(src), rep) for _ in range(k)])
+            rec.count("searches_on_a_warm_tracker")
         res = alg.search()
+        if warm == "second-search":  # asking the same algorithm object again
+            res = alg.search()
+            rec.count("second_search_calls")
     except core.CaseTimeout:
         raise
     except BaseException as e:  # noqa
